@@ -12,12 +12,30 @@
 import vlib
 
 
+INSTANCES = ["core", "fetch", "seldata", "auth1", "auth2", "idle", "state"]
+
+
 def run(ctx):
     quick = ctx.tier == "quick"
-    r = ctx.tlc_ok("Client", "Client_mc.cfg" if quick else "Client_mc_thorough.cfg", timeout=1500)
+    # the command set is covered by several small instances of the same specification (Kinds / Greetings):
+    # core (the RFC 3501 basics, OK greeting), sel (selected-state data: fetch / expunge classes, MOVE, COPY, SORT,
+    # THREAD), auth (CAPABILITY, ENABLE, NAMESPACE, LIST-STATUS, quota, metadata, APPEND, UNAUTHENTICATE; both
+    # greetings), idle (IDLE with its continuation request, DONE, unilateral data meanwhile)
     binp = ctx.build("client")
-    g, s = vlib.gen_and_replay(ctx, "ClientGen", "ClientGen_quick.cfg" if quick else "ClientGen_thorough.cfg", binp,
-                               timeout=2400, harness_timeout=2400)
+    mc_states, gen_total = 0, 0
+    for inst in INSTANCES:
+        r = ctx.tlc_ok("Client", "Client_mc_%s_%s.cfg" % (inst, ctx.tier), timeout=1500)
+        mc_states += r.distinct
+        g, s = vlib.gen_and_replay(ctx, "ClientGen", "ClientGen_%s_%s.cfg" % (inst, ctx.tier), binp, timeout=2400, harness_timeout=2400)
+        gen_total += g.generated
+        ctx.notes.append("instance %s: %d states model-checked, %d transitions replayed (TLC %.0fs)" % (inst, r.distinct, s["behaviours"], g.wall))
+    if not quick:
+        # long random behaviours of larger instances (simulation mode), replayed the same way
+        for inst in INSTANCES:
+            g, s = vlib.gen_and_replay(ctx, "ClientGen", "ClientSim_%s.cfg" % inst, binp, timeout=2400, harness_timeout=2400,
+                                       simulate="num=400", depth=60, workers=8)
+    r = type("R", (), {"distinct": mc_states})()
+    g = type("G", (), {"generated": gen_total})()
     ntr, steps = (150, 300) if quick else (1500, 400)
     ok, tr, s2 = vlib.record_and_validate(ctx, binp, ["random", "-seed", ctx.seed, "-traces", ntr, "-steps", steps],
                                           "ClientTrace", "ClientTrace.cfg", name="client.ndjson", timeout=2400)
